@@ -251,6 +251,32 @@ class World:
                 __slots__ = ('__provides__',)
             classImplements(SLP, self.ifaces[0])
             ob = SLP()
+        elif kind == 'providedBy_proxy':
+            # __providedBy__ yields an object that is not a specification
+            # but behaves like one (a security-proxied declaration): both
+            # implementations accept anything that has ``extends``
+            from zope.interface import providedBy as _pb
+            target = _pb(self.insts[1 % len(self.insts)])
+
+            class SpecProxy:
+                def __init__(self, spec):
+                    self.__dict__['_spec'] = spec
+
+                def __getattr__(self, name):
+                    return getattr(self.__dict__['_spec'], name)
+
+                def __call__(self, other):
+                    return self.__dict__['_spec'](other)
+
+                def __iter__(self):
+                    return iter(self.__dict__['_spec'])
+            proxy = SpecProxy(target)
+
+            class PP(cls0):
+                @property
+                def __providedBy__(self):
+                    return proxy
+            ob = PP()
         elif kind in ('named_none', 'named_int', 'named_like_I0'):
             # foreign objects that do have __name__ and __module__: the
             # comparison operators of interfaces accept them
